@@ -24,7 +24,7 @@ def trE : List Action :=
    .sIsSet, .sGet, .sHave, .sDrain, .sIsSet, .sGet, .sHave, .sDrain, .sDrain,
    .cCall, .cIsSet, .cMpIsSet, .cChk, .cGet, .cRel, .cPop,
    .cCall, .cIsSet, .cMpIsSet, .cChk, .cGet, .cRel, .cPop,
-   .rIsSet, .rAcq, .rEnter, .rLeave, .rPut, .wIsSet 0, .wGet 0, .wPut 0, .sIsSet, .sGet, .sHave,
+   .rIsSet, .rAcq, .rEnter, .rLeave, .rPut, .rRet, .wIsSet 0, .wGet 0, .wPut 0, .sIsSet, .sGet, .sHave,
    .cCall, .cIsSet, .cMpIsSet, .cChk, .cGet, .cRel, .cIsSet, .cMpIsSet, .cChk, .cSet, .cMpSet]
 
 def sE : Option State := run cfgE (init cfgE) trE
@@ -112,19 +112,26 @@ theorem delivered_prefix_total (c : Cfg) (s : State) (hr : Reachable c s) (hio :
     | cons a l ih => simp [ih]
   rwa [he] at this
 
-/-- **C04 `complete`.** Once `next()` has raised StopIteration, the source ended with StopIteration (never in place
-of an error), nothing is in flight (`sem + in_flight = max` with `sem = max`), every index was processed exactly
-once, and the delivered values are a permutation of the reference — equal to it when in order. -/
-theorem complete (c : Cfg) (s : State) (hr : Reachable c s) (hn : 0 < s.nstop) :
-    c.term = .stop ∧ s.sem = c.max ∧ held s = 0 ∧ s.lost = [] ∧
+/-- **C04 `complete`.** Once `next()` has raised StopIteration and no worker has died: nothing is in flight
+(`sem + in_flight = max` with `sem = max`), every index — the terminal included — was processed exactly once, and the
+delivered values are a permutation of the reference, equal to it when in order.  The stream never ends cleanly in place
+of a source error: if the source ended with an exception, that exception was raised before (`0 < errs`). -/
+theorem complete (c : Cfg) (s : State) (hr : Reachable c s) (hn : 0 < s.nstop) (hnd : NoDead s) :
+    s.sem = c.max ∧ held s = 0 ∧ s.lost = [] ∧
     s.got.Perm (List.range (c.src.length + 1)) ∧
     s.outs.Perm (refOut c) ∧
-    (c.inOrder = true → s.outs = refOut c) := by
+    (c.inOrder = true → s.outs = refOut c) ∧
+    (c.term = .stop → s.done = true) ∧
+    (c.term = .error → c.src.length ∈ s.got ∧ 0 < s.errs) := by
   have h := inv_reachable hr
-  obtain ⟨ht, hheld, hlost, hpull, _⟩ := at_stop h hn
-  have hperm := got_perm_at_stop h hn
-  have hf := h.fin (Or.inr (Or.inr (Or.inl hn)))
-  refine ⟨ht, hf.2, hheld, hlost, hperm, ?_, ?_⟩
+  have hdc : deadCount s = 0 := deadCount_zero_iff.mpr hnd
+  obtain ⟨hsem, hfin, hheld, hlost, hpull, hcount⟩ := at_stop h hn hdc
+  have hperm := got_perm_at_stop h hn hdc
+  have hend : c.src.length ∈ s.got := by
+    have := hcount c.src.length
+    simp at this
+    exact List.count_pos_iff.mp (by omega)
+  refine ⟨hsem, hheld, hlost, hperm, ?_, ?_, ?_, ?_⟩
   · rw [h.outsEq, ← refOut_eq_range]
     exact hperm.filterMap _
   · intro hio
@@ -133,13 +140,25 @@ theorem complete (c : Cfg) (s : State) (hr : Reachable c s) (hn : 0 < s.nstop) :
       have := hperm.length_eq
       simpa using this
     rw [h.outsEq, hg, hl, refOut_eq_range]
+  · intro ht
+    exact h.doneC ht (Or.inl hend)
+  · intro ht
+    refine ⟨hend, ?_⟩
+    have hl := h.lenEq
+    have hv : outVal c c.src.length = none := by
+      rw [outVal_eq]; simp
+    have := length_filterMap_lt (outVal c) s.got _ hend hv
+    rw [← h.outsEq] at this
+    simp [ht] at hl
+    omega
 
-/-- **C04 (in_order = false).** At StopIteration the outputs are a permutation of `map_fn` over the source. -/
-theorem unordered_perm (c : Cfg) (s : State) (hr : Reachable c s) (hn : 0 < s.nstop) : s.outs.Perm (refOut c) :=
-  (complete c s hr hn).2.2.2.2.2.1
+/-- **C04 (in_order = false).** At StopIteration (no worker died) the outputs are a permutation of `map_fn` over the source. -/
+theorem unordered_perm (c : Cfg) (s : State) (hr : Reachable c s) (hn : 0 < s.nstop) (hnd : NoDead s) :
+    s.outs.Perm (refOut c) :=
+  (complete c s hr hn hnd).2.2.2.2.1
 
-example : ∃ s, Reachable cfgE s ∧ 0 < s.nstop ∧ s.outs = refOut cfgE :=
-  ⟨sE.get sE_isSome, sE_reachable, by decide, by decide⟩
+example : ∃ s, Reachable cfgE s ∧ 0 < s.nstop ∧ NoDead s ∧ s.outs = refOut cfgE :=
+  ⟨sE.get sE_isSome, sE_reachable, by decide, by unfold NoDead; decide, by decide⟩
 
 /-! ## C11 — errors are raised at the right position -/
 
@@ -172,7 +191,7 @@ theorem error_after_prefix (c : Cfg) (s : State) (hr : Reachable c s) (hio : c.i
 
 /-- non-vacuity: the reachable state of `cfgA` (source raises at once) in which the consumer holds the wrapper. -/
 example : ∃ s m, Reachable cfgA s ∧ s.cpc = .rel m ∧ m.pay = .err :=
-  ⟨(run cfgA (init cfgA) (trA.take 18)).get (by decide), ⟨.err, 0⟩, ⟨trA.take 18, (Option.some_get _).symm⟩,
+  ⟨(run cfgA (init cfgA) (trA.take 19)).get (by decide), ⟨.err, 0⟩, ⟨trA.take 19, (Option.some_get _).symm⟩,
     by decide, rfl⟩
 
 /-! ## C06 — the checkpoint tracks the consumer -/
@@ -198,69 +217,178 @@ example : ∃ s, Reachable cfgE s ∧ s.cpc = .idle ∧ s.errs = 0 ∧ s.outs.le
 
 /-! ## C11 — termination of `next()` -/
 
-/-- Full-strength progress statement: whenever the consumer is inside `next()`, some action other than a timeout is
-enabled (so, together with `variant`, `next()` returns without ever having to wait for a timeout). -/
-def progress_statement (c : Cfg) : Prop :=
-  ∀ s, Reachable c s → s.cpc.inNext = true → CanMove c s
+/-- **C11 `progress` (full strength).** With at least one worker and `max_concurrent ≥ 1`: in EVERY reachable state with
+the consumer inside `next()`, either some action other than a timeout is enabled, or the consumer's own timeout step
+(`queue.Empty`) puts it on a return path — `set1` (reader gone, nothing in flight: set both events, StopIteration) or
+`dchk1` (a worker is not alive: test and set both events, RuntimeError) — on which only non-timeout steps of the consumer
+remain.  No exclusions: the two former hang states are covered. -/
+theorem progress (c : Cfg) (s : State) (hr : Reachable c s) (hin : s.cpc.inNext = true) (hN : 0 < c.N) (hmax : 0 < c.max) :
+    CanMove c s ∨ ∃ s', step c s .cGetT = some s' ∧ (s'.cpc = .set1 ∨ s'.cpc = .dchk1) ∧ CanMove c s' := by
+  rcases progress_of_inv (inv_reachable hr) hin hN hmax with h | ⟨s', h1, h2⟩
+  · exact Or.inl h
+  · refine Or.inr ⟨s', h1, h2, ?_⟩
+    rcases h2 with h2 | h2
+    · exact ⟨.cSet, rfl, by simp [step, stepC, h2]⟩
+    · exact ⟨.cDeadIsSet, rfl, by simp [step, stepC, h2]⟩
 
-/-- **C11-a: the full statement is FALSE on the current code.** After a source error has been raised once, the next
-`next()` reaches a state in which only timeouts are enabled (reader gone without an end-of-stream marker, `_done`
-never set, stop never set). -/
-theorem progress_statement_false_source_error : ¬ progress_statement cfgA := by
-  intro h
-  have h1 := h sA sA_reachable (by rw [sA_facts.1]; rfl)
-  rw [canMove_iff (by rw [sA_facts.2.2.2.2.1]; rfl)] at h1
-  rw [sA_facts.2.2.2.2.2.2.2.2.2] at h1
-  exact Bool.false_ne_true h1
+/-- non-vacuity, second disjunct: the former hang states `sA` (after a source error) and `sB` (worker died holding an
+item) are reachable, only timeouts are enabled there, and the consumer's timeout step leads out. -/
+example : Reachable cfgA sA ∧ canMoveB cfgA sA = false ∧ Reachable cfgB sB ∧ canMoveB cfgB sB = false :=
+  ⟨sA_reachable, sA_facts.2.2.2.2.2.2.2.2.2, sB_reachable, sB_facts.2.2.2.2.2.2.2.2⟩
 
-/-- … and it stays there forever: no continuation whatsoever (any actions of any threads, any timeouts) lets that
-`next()` return. -/
-theorem hang_after_source_error_forever :
-    Reachable cfgA sA ∧ SourceErrorRaised cfgA sA ∧ sA.cpc.inNext = true ∧
-    ∀ tr s', run cfgA sA tr = some s' → s'.cpc.inNext = true := by
-  refine ⟨sA_reachable, ⟨rfl, by rw [sA_facts.2.2.2.1]; decide⟩, by rw [sA_facts.1]; rfl, ?_⟩
-  intro tr s' hrun
-  have hm := closed_run closureA_closed tr sA_mem hrun
-  have := List.all_eq_true.mp closureA_inNext s' hm
-  simpa using this
+/-- **C11 "prompt", precisely.** Once the reader has returned and nothing is in flight, ONE timeout step of the consumer
+followed by two event sets raises StopIteration — whatever else the other threads are doing. -/
+theorem early_stop_prompt (c : Cfg) (s : State) (hpc : s.cpc = .get) (hq : outq c s = []) (hrx : s.rpc = .exited)
+    (hsem : s.sem = c.max) :
+    ∃ s', run c s [.cGetT, .cSet, .cMpSet] = some s' ∧ s'.cpc = .idle ∧ s'.nstop = s.nstop + 1 ∧ s'.outs = s.outs ∧
+      s'.stop = true ∧ s'.mpstop = true := by
+  refine ⟨{ s with stop := true, mpstop := true, cpc := .idle, nstop := s.nstop + 1 }, ?_, rfl, rfl, rfl, rfl, rfl⟩
+  simp [run, step, stepC, hpc, hq, afterEmpty, hrx, hsem]
 
-/-- **C11-b: false as well when a worker process dies holding an item** (its permit is never returned). -/
-theorem progress_statement_false_worker_death : ¬ progress_statement cfgB := by
-  intro h
-  have h1 := h sB sB_reachable (by rw [sB_facts.1]; rfl)
-  rw [canMove_iff (by rw [sB_facts.2.2.1]; rfl)] at h1
-  rw [sB_facts.2.2.2.2.2.2.2.2] at h1
-  exact Bool.false_ne_true h1
+/-- **C11 `next_after_source_error_prompt` (in order).** After the source's exception has been raised to the consumer,
+nothing is in flight any more and the reader is returning or has returned; once it has, the next `next()` raises
+StopIteration after the stop tests and ONE queue timeout (and every later one at once, `next_after_end_prompt`). -/
+theorem next_after_source_error_prompt (c : Cfg) (s : State) (hr : Reachable c s) (hio : c.inOrder = true)
+    (herr : SourceErrorRaised c s) (hidle : s.cpc = .idle) (hst : s.stop = false) :
+    s.sem = c.max ∧ held s = 0 ∧ s.lost = [] ∧ (s.rpc = .ret ∨ s.rpc = .exited) ∧
+    (s.rpc = .exited →
+      ∃ s', run c s [.cCall, .cIsSet, .cMpIsSet, .cChk, .cGetT, .cSet, .cMpSet] = some s' ∧ s'.cpc = .idle ∧
+        s'.nstop = s.nstop + 1 ∧ s'.outs = s.outs ∧ s'.errs = s.errs) := by
+  have h := inv_reachable hr
+  have hpull := end_pulled h herr.2
+  have hg := order_got h hio
+  have hlen : s.got.length = c.src.length + 1 := by
+    have h1 : c.src.length < s.got.length := by
+      have := herr.2; rw [hg] at this; simpa using this
+    have h2 : s.got.length ≤ s.pulled := by
+      rcases Nat.eq_zero_or_pos s.got.length with h0 | h0
+      · omega
+      · have hm : s.got.length - 1 ∈ s.got := by rw [hg]; simp; omega
+        have := cnt_ge_got hm
+        have hc := h.cnt (s.got.length - 1)
+        split at hc <;> omega
+    omega
+  have hall : ∀ k, k < s.pulled → s.got.count k = 1 := by
+    intro k hk
+    rw [hg, count_range]; simp; omega
+  obtain ⟨hheld, hhand, hlost⟩ := all_in_got_drained h hall
+  have hne := fin_not_early h (Or.inr herr)
+  have hrpc : s.rpc = .ret ∨ s.rpc = .exited := by
+    cases hrp : s.rpc <;> simp [hrp, RPc.early, held, RPc.holds] at hne hheld ⊢
+  have hsem : s.sem = c.max := by
+    have hp := h.permits
+    have : pending s = 0 := by
+      simp only [pending, hidle, CPc.permit]
+      rcases hrpc with h1 | h1 <;> simp [h1, RPc.inCall]
+    rw [hheld, this, hlost] at hp
+    simpa using hp
+  refine ⟨hsem, hheld, hlost, hrpc, ?_⟩
+  intro hrx
+  have hmp := mpstop_false_of h hst
+  have hdone : s.done = false := by
+    cases hd : s.done
+    · rfl
+    · have := (h.doneI hd).1; rw [herr.1] at this; simp at this
+  have hq : outq c s = [] := by
+    simp only [held] at hheld
+    have h1 : s.sq = [] := List.eq_nil_of_length_eq_zero (by omega)
+    simp [outq, hio, h1]
+  refine ⟨{ s with stop := true, mpstop := true, cpc := .idle, nstop := s.nstop + 1 }, ?_, rfl, rfl, rfl, rfl⟩
+  have hq' : outq c { s with cpc := .get } = [] := by simpa [outq] using hq
+  simp [run, step, stepC, hidle, hst, hmp, hdone, afterEmpty, hrx, hsem]
+  simp [outq, hio] at hq
+  simp [outq, hio, hq]
 
-theorem hang_after_worker_death_forever :
-    Reachable cfgB sB ∧ ¬ NoDead sB ∧ sB.cpc.inNext = true ∧
-    ∀ tr s', run cfgB sB tr = some s' → s'.cpc.inNext = true := by
-  refine ⟨sB_reachable, ?_, by rw [sB_facts.1]; rfl, ?_⟩
-  · intro hnd
-    exact hnd .dead (by rw [sB_facts.2.2.1]; simp) rfl
-  · intro tr s' hrun
-    have hm := closed_run closureB_closed tr sB_mem hrun
-    have := List.all_eq_true.mp closureB_inNext s' hm
-    simpa using this
+/-- **C11 `worker_death_detected`.** With a dead worker, as soon as the consumer's `get` times out on an empty queue it
+leaves `next()` by non-timeout steps of its own: RuntimeError (after testing and setting both stop events), or
+StopIteration if the reader is gone and nothing is in flight (then nothing was lost). -/
+theorem worker_death_detected (c : Cfg) (s : State) (hr : Reachable c s) (hpc : s.cpc = .get) (hq : outq c s = [])
+    (hd : WPc.dead ∈ s.wk) :
+    (∃ s', run c s [.cGetT, .cDeadIsSet, .cDeadMpIsSet, .cDeadSet, .cDeadMpSet] = some s' ∧ s'.cpc = .idle ∧
+        s'.rterr = s.rterr + 1 ∧ s'.stop = true ∧ s'.mpstop = true ∧ s'.outs = s.outs) ∨
+    (∃ s', run c s [.cGetT, .cSet, .cMpSet] = some s' ∧ s'.cpc = .idle ∧ s'.nstop = s.nstop + 1 ∧ s.lost = []) := by
+  have h := inv_reachable hr
+  have hst := stop_false_of h (by simp [hpc])
+  have hmp := mpstop_false_of h hst
+  have hany : s.wk.any WPc.gone = true := List.any_eq_true.mpr ⟨_, hd, rfl⟩
+  by_cases hcond : s.rpc = .exited ∧ s.sem = c.max
+  · right
+    obtain ⟨s', h1, h2, h3, _⟩ := early_stop_prompt c s hpc hq hcond.1 hcond.2
+    refine ⟨s', h1, h2, h3, ?_⟩
+    have hp := h.permits
+    exact List.eq_nil_of_length_eq_zero (by omega)
+  · left
+    refine ⟨{ s with stop := true, mpstop := true, rterr := s.rterr + 1, cpc := .idle }, ?_, rfl, rfl, rfl, rfl, rfl⟩
+    simp [run, step, stepC, hpc, hq, afterEmpty, hcond, hany, hst, hmp]
 
-/-- The statement for all sensible configurations — false, by either witness. -/
-def progress_statement_all : Prop := ∀ c : Cfg, 0 < c.N → 0 < c.max → progress_statement c
+/-- **Safety of the early StopIteration (`early_stop_sound`).** The consumer's timeout step can take the StopIteration
+exit only when nothing is in flight, nothing was lost, every index handed out — the terminal included — has been
+completely processed exactly once, and the terminal was the source's EXCEPTION, already raised to the consumer
+(with a StopIteration terminal this exit is unreachable: `_done` would have ended the stream).  So it cannot lose an
+item, in order or not, with or without `map_fn` errors in flight. -/
+theorem early_stop_sound (c : Cfg) (s s' : State) (hr : Reachable c s) (hs : step c s .cGetT = some s')
+    (hex : s'.cpc = .set1) :
+    held s = 0 ∧ s.lost = [] ∧ s.pulled = c.src.length + 1 ∧
+    (∀ k, s.got.count k = if k < c.src.length + 1 then 1 else 0) ∧
+    s.outs.Perm (refOut c) ∧ SourceErrorRaised c s ∧ 0 < s.errs := by
+  have h := inv_reachable hr
+  simp only [step] at hs
+  obtain ⟨hpc, hq, rfl⟩ := spec_cGetT.mp hs
+  have hst := stop_false_of h (by simp [hpc])
+  have hcond : s.rpc = .exited ∧ s.sem = c.max := by
+    simp only [afterEmpty] at hex
+    by_cases hc : s.rpc = .exited ∧ s.sem = c.max
+    · exact hc
+    · simp only [hc, if_false] at hex
+      split at hex <;> simp at hex
+  obtain ⟨_, hfin⟩ := early_stop_facts h hpc hst hcond.1 hcond.2
+  have hp := h.permits
+  have hheld : held s = 0 := by omega
+  have hlost : s.lost = [] := List.eq_nil_of_length_eq_zero (by omega)
+  have herr : SourceErrorRaised c s := by
+    rcases hfin with hd | he
+    · exact absurd ⟨hd, hcond.2⟩ (h.getNotFin hpc)
+    · exact he
+  have hpull := end_pulled h herr.2
+  have hcount : ∀ k, s.got.count k = if k < c.src.length + 1 then 1 else 0 := by
+    intro k
+    rw [← hpull]
+    exact drained h hheld (by simp [hpc, CPc.hand]) hlost k
+  have hperm : s.got.Perm (List.range (c.src.length + 1)) := by
+    rw [List.perm_ext_iff_of_nodup (got_nodup h) List.nodup_range]
+    intro a
+    have := hcount a
+    rw [List.mem_range, ← List.count_pos_iff]
+    split at this <;> omega
+  refine ⟨hheld, hlost, hpull, hcount, ?_, herr, ?_⟩
+  · rw [h.outsEq, ← refOut_eq_range]
+    exact hperm.filterMap _
+  · have hl := h.lenEq
+    have hv : outVal c c.src.length = none := by
+      rw [outVal_eq]; simp
+    have := length_filterMap_lt (outVal c) s.got _ herr.2 hv
+    rw [← h.outsEq] at this
+    simp [herr.1] at hl
+    omega
 
-theorem progress_statement_all_false : ¬ progress_statement_all :=
-  fun h => progress_statement_false_source_error (h cfgA (by decide) (by decide))
+/-- **Safety of the RuntimeError (`runtime_error_sound`).** On the dead-worker path, and whenever a RuntimeError has
+been raised, some worker is really dead (a worker never exits before a stop event is set). -/
+theorem runtime_error_sound (c : Cfg) (s : State) (hr : Reachable c s)
+    (hp : s.cpc = .dchk1 ∨ s.cpc = .dchk2 ∨ s.cpc = .dset1 ∨ s.cpc = .dset2 ∨ 0 < s.rterr) : WPc.dead ∈ s.wk := by
+  have h := inv_reachable hr
+  apply exists_dead_of_deadCount
+  rcases hp with h1 | h1 | h1 | h1 | h1
+  · exact h.deadSeen (Or.inl h1)
+  · exact h.deadSeen (Or.inr (Or.inl h1))
+  · exact h.deadSeen (Or.inr (Or.inr (Or.inl h1)))
+  · exact h.deadSeen (Or.inr (Or.inr (Or.inr h1)))
+  · exact h.rtDead h1
 
-/-- **C11 `progress_partial`.** Outside those two situations — no worker process has died, the source's exception has
-not yet been raised to the consumer — with at least one worker and `max_concurrent ≥ 1`: in every reachable state
-with the consumer inside `next()` some non-timeout action is enabled.  This covers the normal stream, the stream
-after any number of `map_fn` errors, and the end of the stream. -/
-theorem progress_partial (c : Cfg) (s : State) (hr : Reachable c s) (hin : s.cpc.inNext = true)
-    (hN : 0 < c.N) (hmax : 0 < c.max) (hnd : NoDead s) (hne : ¬ SourceErrorRaised c s) : CanMove c s :=
-  progress_of_inv (inv_reachable hr) hin hN hmax hnd hne
+example : (run cfgA sA [.cGetT, .cSet, .cMpSet]).map (fun s => (s.cpc, s.nstop, s.errs, s.rterr, s.stop, s.mpstop)) =
+    some (.idle, 1, 1, 0, true, true) := sA_returns
 
-example : ∃ s, Reachable cfgE s ∧ s.cpc.inNext = true ∧ 0 < cfgE.N ∧ 0 < cfgE.max ∧ NoDead s ∧
-    ¬ SourceErrorRaised cfgE s :=
-  ⟨(run cfgE (init cfgE) (trE.take 33)).get (by decide), ⟨trE.take 33, (Option.some_get _).symm⟩, by decide,
-    by decide, by decide, by unfold NoDead; decide, by simp [SourceErrorRaised, cfgE]⟩
+example : (run cfgB sB [.cGetT, .cDeadIsSet, .cDeadMpIsSet, .cDeadSet, .cDeadMpSet]).map
+    (fun s => (s.cpc, s.nstop, s.errs, s.rterr, s.stop, s.mpstop)) = some (.idle, 0, 0, 1, true, true) := sB_returns
 
 /-- **C11 `variant`.** The measure `mu` strictly decreases on every action that is neither a timeout nor the start
 of a new `next()` call.  With `progress_partial`: under a scheduler that fires timeouts only when nothing else can
@@ -306,6 +434,10 @@ theorem stop_stays (c : Cfg) (s s' : State) (a : Action) (hs : step c s a = some
     case cGetT => obtain ⟨_, _, rfl⟩ := spec_cGetT.mp hs; simp
     case cRel => obtain ⟨m, _, _, rfl⟩ := spec_cRel.mp hs; cases m.pay <;> simp
     case cPop => obtain ⟨m, y, _, _, rfl⟩ := spec_cPop.mp hs; simp
+    case cDeadIsSet => obtain ⟨_, rfl⟩ := spec_cDeadIsSet.mp hs; split <;> simp
+    case cDeadMpIsSet => obtain ⟨_, rfl⟩ := spec_cDeadMpIsSet.mp hs; split <;> simp
+    case cDeadSet => obtain ⟨_, rfl⟩ := spec_cDeadSet.mp hs; simp
+    case cDeadMpSet => obtain ⟨_, rfl⟩ := spec_cDeadMpSet.mp hs; simp
     case cShutSet => obtain ⟨_, rfl⟩ := spec_cShutSet.mp hs; simp
     case cShutMpSet => obtain ⟨_, rfl⟩ := spec_cShutMpSet.mp hs; simp
 
@@ -313,10 +445,10 @@ theorem stop_stays (c : Cfg) (s s' : State) (a : Action) (hs : step c s a = some
 loop head, or finishes the iteration it is in: acquire or time out, leave the source, append, put), no other thread
 changes it, `_stop` stays set, and a live reader always has an enabled step. -/
 theorem released_reader (c : Cfg) (s s' : State) (a : Action) (hstop : s.stop = true) (hs : step c s a = some s') :
-    (a ∈ [Action.rInit, .rIsSet, .rAcq, .rAcqT, .rEnter, .rLeave, .rAppend, .rPut] → rrank s'.rpc < rrank s.rpc) ∧
-    (a ∉ [Action.rInit, .rIsSet, .rAcq, .rAcqT, .rEnter, .rLeave, .rAppend, .rPut] → s'.rpc = s.rpc) ∧
+    (a ∈ [Action.rInit, .rIsSet, .rAcq, .rAcqT, .rEnter, .rLeave, .rAppend, .rPut, .rRet] → rrank s'.rpc < rrank s.rpc) ∧
+    (a ∉ [Action.rInit, .rIsSet, .rAcq, .rAcqT, .rEnter, .rLeave, .rAppend, .rPut, .rRet] → s'.rpc = s.rpc) ∧
     s'.stop = true ∧ rrank s.rpc ≤ 6 ∧ (rrank s.rpc = 0 ↔ s.rpc = .exited) ∧
-    (s.rpc ≠ .exited → ∃ b, b ∈ [Action.rInit, .rIsSet, .rAcq, .rAcqT, .rEnter, .rLeave, .rAppend, .rPut] ∧
+    (s.rpc ≠ .exited → ∃ b, b ∈ [Action.rInit, .rIsSet, .rAcq, .rAcqT, .rEnter, .rLeave, .rAppend, .rPut, .rRet] ∧
       (step c s b).isSome = true) := by
   refine ⟨?_, ?_, (stop_stays c s s' a hs).1 hstop, ?_, ?_, reader_live c s⟩
   · intro ha
